@@ -1,7 +1,7 @@
 """C30 — CI merges only fully tested, approved, current PRs (ci/ci/github.py: PR, WatchedBranch).
 
 Tie: X.  coq/theories/CI/Model.v is a hand-written event-sourced model (GitHub truth, batch-service truth, CI's beliefs) of
-update_from_gh_json / _update_github / _update_batch / _heal / is_mergeable / try_to_merge; CI/Lemmas.v proves, for ALL
+update_from_gh_json / _update_github / _update_batch / _heal / is_mergeable / try_to_merge; CI/Lemmas1-3.v prove, for ALL
 event histories, that every merge is safe and that no two merges use the same target commit.  The correspondence drives
 the REAL PR / WatchedBranch objects (scripted fake GitHub, fake batch service, fake database) and the model with the same
 histories and compares the full observable state after every event; a second correspondence runs the real `_update` loop
@@ -17,7 +17,7 @@ from harness.core import Corr, Disagreement, Failure, coq_eval, VERIF
 ID = 'C30'
 SRC = 'ci/ci/github.py'
 COQ_PROPS = 'theories/CI/Props_C30.v'
-READY = False
+READY = True
 META = dict(
     design_ref='§5.E C30',
     technique='Coq proof by invariant over all event histories of a hand model of PR/WatchedBranch; step-by-step state correspondence '
@@ -198,7 +198,7 @@ def _model_traces(ctx, hs):
 
 
 def correspond(ctx):
-    hs = histories(ctx, ctx.scale(150, 1500), 30)
+    hs = histories(ctx, ctx.scale(100, 1500), 30)
     ctx._c30_hs = hs
     impl = _impl(ctx, hs)
     ctx._c30_impl = impl
@@ -269,7 +269,7 @@ def gen_loop_history(rng, length, max_prs=3):
 
 def _correspond_loop(ctx):
     """The real `_update` loop = a sequence of the model's events, with try_to_merge only directly after _heal."""
-    hs = [gen_loop_history(ctx.rng, 25) for _ in range(ctx.scale(60, 600))]
+    hs = [gen_loop_history(ctx.rng, 25) for _ in range(ctx.scale(40, 600))]
     impl = _impl(ctx, hs, 'loop')
     dis = []
     expanded = []
@@ -362,48 +362,52 @@ def oracle(ctx, budget):
     hs = getattr(ctx, '_c30_hs', None)
     impl = getattr(ctx, '_c30_impl', None)
     if hs is None or budget > 1:
-        hs = histories(ctx, ctx.scale(150, 1500) * budget, 30)
+        hs = histories(ctx, ctx.scale(100, 1500) * budget, 30)
         impl = _impl(ctx, hs)
-    fails = []
     n_merges = 0
+    shortest = {}
     for h, ir in zip(hs, impl):
         n_merges += len(ir['merges'])
         for key, m in check_merges(ir['merges']):
-            fails.append(Failure(key, f'CI merged PR {m["pr"]} at {m["sha"]} with: {key}', {'history': _shrink(ctx, h, key)}, 'every merge: approved for this head, '
-                                 'no DNM label, statuses non-empty/all success/for this head, batch for this head against the current target and successful',
-                                 m))
-    by = {}
-    for f in fails:
-        if f.key not in by or len(f.case['history']) < len(by[f.key].case['history']):
-            by[f.key] = f
-    return list(by.values()), {'evaluations': len(hs), 'distinct_nontrivial': n_merges,
-                               'rule': 'oracle: histories run on the real objects; non-trivial = merges performed and checked against the recorded provenance',
-                               'histograms': {'oracle_merges': n_merges}}
+            if key not in shortest or len(h) < len(shortest[key][0]):
+                shortest[key] = (h, m)
+    fails = []
+    for key, (h, m) in sorted(shortest.items()):
+        h2, m2 = _shrink(ctx, h, key, m)
+        fails.append(Failure(key, f'CI merged PR {m2["pr"]} at {m2["sha"]} with: {key}', {'history': h2},
+                             'every merge: approved for this head, no DNM label, statuses non-empty / all success / for this head, '
+                             'batch for this head against the current target and successful; one merge per target commit', m2))
+    return fails, {'evaluations': len(hs), 'distinct_nontrivial': n_merges,
+                   'rule': 'oracle: histories run on the real objects; non-trivial = merges performed and checked against the recorded provenance',
+                   'histograms': {'oracle_merges': n_merges}}
 
 
-def _shrink(ctx, h, key):
-    """Greedy event removal keeping the same violation class (bounded)."""
-    cur = list(h)
-    budget = 40
-    i = 0
-    while i < len(cur) and budget > 0:
-        cand = cur[:i] + cur[i + 1:]
-        # keep Open numbering contiguous
-        opens = [e[1] for e in cand if e[0] == 'Open']
-        if opens != list(range(1, len(opens) + 1)):
-            i += 1
-            continue
-        budget -= 1
+def _shrink(ctx, h, key, m):
+    """Greedy one-event removal keeping the same violation class; one subprocess per round."""
+    cur, cur_m = list(h), m
+    for _ in range(len(h)):
+        cands = []
+        for i in range(len(cur)):
+            cand = cur[:i] + cur[i + 1:]
+            opens = [e[1] for e in cand if e[0] == 'Open']
+            if opens == list(range(1, len(opens) + 1)):
+                cands.append(cand)
+        if not cands:
+            break
         try:
-            r = _impl(ctx, [cand])[0]
+            res = _impl(ctx, cands)
         except Exception:  # noqa
-            i += 1
-            continue
-        if any(k == key for k, _ in check_merges(r['merges'])):
-            cur = cand
-        else:
-            i += 1
-    return cur
+            break
+        nxt = None
+        for cand, r in zip(cands, res):
+            hit = [mm for k, mm in check_merges(r['merges']) if k == key]
+            if hit:
+                nxt = (cand, hit[0])
+                break
+        if nxt is None:
+            break
+        cur, cur_m = nxt
+    return cur, cur_m
 
 
 def replay(ctx, doc):
